@@ -90,8 +90,10 @@ def stores(node):
     for n in ast.walk(node):
         if isinstance(n, ast.Name) and isinstance(n.ctx, (ast.Store, ast.Del)):
             out.add(n.id)
-        if isinstance(n, (ast.Global, ast.Nonlocal, ast.AugAssign)) :
-            fail(n, "global / nonlocal / augmented assignment in the decision block")
+        if isinstance(n, (ast.Global, ast.Nonlocal, ast.AugAssign, ast.Delete)):
+            fail(n, "global / nonlocal / augmented assignment / del in the decision block")
+        if isinstance(n, (ast.Subscript, ast.Attribute)) and isinstance(n.ctx, (ast.Store, ast.Del)):
+            fail(n, "assignment to an element or attribute (in-place update) in the decision block")
     return out
 
 
